@@ -702,6 +702,75 @@ func c07LayouterPairs(r *run.Run) {
 		})
 }
 
+// every (lookup type, subtable format) pair the 16-bit fields can hold: whatever gtab.Read accepts can be
+// applied (the reader dispatches on 10*type+format; types it does not know must be refused, not aliased)
+func c07TypeFormat(r *run.Run) {
+	r.Explore(explore.Config{Name: "C07.type-format", Deadline: r.PartDeadline(0.3)},
+		"GSUB and GPOS tables with one lookup of every type 0..65535 (in 256 blocks) whose subtable starts with every format word 0..9 followed by an extension-style body (type 1, offset 8) and a minimal single-substitution / adjustment subtable, or (formats 1 and 7) by an extension body naming an extension type or an alias of one (7, 9, 6560, 6562) in front of a second extension-shaped record: gtab.Read refuses, or the lookup can be applied to a glyph sequence without a panic",
+		func(c *explore.Ctx) {
+			gpos := c.Bool("gpos")
+			blk := c.Choose(256, "lookup type block")
+			tp := gtab.Type(gtab.TypeGsub)
+			if gpos {
+				tp = gtab.TypeGpos
+			}
+			accepted := 0
+			type variant struct{ f, extType, innerFormat int }
+			var variants []variant
+			for f := 0; f < 10; f++ {
+				variants = append(variants, variant{f, 1, 1})
+			}
+			for _, f := range []int{1, 7} {
+				for _, et := range []int{7, 9, 6560, 6562} { // an extension that names an extension type (or an alias of one)
+					for _, fi := range []int{1, 7} {
+						variants = append(variants, variant{f, et, fi})
+					}
+				}
+			}
+			for t := blk * 256; t < blk*256+256; t++ {
+				for _, v := range variants {
+					f := v.f
+					// subtable: format f, then what an extension subtable has (lookup type, 32-bit offset 8); at offset 8
+					// either a format 1 single substitution / adjustment with a one-glyph coverage table, or a second
+					// extension-shaped record in front of it
+					sub := be16(f, v.extType, 0, 8)
+					if v.extType != 1 {
+						sub = append(sub, be16(v.innerFormat, 1, 0, 8)...)
+					}
+					sub = append(sub, be16(1, 6, 1, 1, 1, 1)...)
+					data := be16(1, 0, 10, 12, 14)
+					data = append(data, be16(0)...)
+					data = append(data, be16(0)...)
+					data = append(data, be16(1, 4)...)
+					data = append(data, be16(t, 0, 1, 8)...)
+					data = append(data, sub...)
+					info, err := gtab.Read(bytes.NewReader(data), tp)
+					if err != nil {
+						continue
+					}
+					accepted++
+					var pmsg string
+					fin := true
+					if p := guard(func() {
+						gtab.NewContext(info.LookupList, nil, []gtab.LookupIndex{0}).Apply(seqWithText([]glyph.ID{1, 2, 1}))
+					}); p != "" {
+						pmsg = p
+					}
+					_ = fin
+					if pmsg != "" {
+						c.Fail("C07.panic", "type/format: "+explore.PanicSignature(pmsg), "lookup type %d, subtable format %d (accepted by gtab.Read as %T): Apply panics: %s", t, f, info.LookupList[0].Subtables[0], pmsg)
+						return
+					}
+				}
+			}
+			c.Count("accepted (type, format) pairs", int64(accepted))
+			if accepted > 0 {
+				c.Nontrivial()
+			}
+			c.Outcome(gpos, blk, accepted)
+		})
+}
+
 // tables obtained from bytes: every single-field corruption of encoded
 // well-formed tables that gtab.Read accepts is applied.
 func c07Bytes(r *run.Run) {
@@ -786,6 +855,7 @@ func init() {
 		c07HistoryPairs(r)
 		c07LayouterHostile(r)
 		c07LayouterPairs(r)
+		c07TypeFormat(r)
 		c07Structures(r)
 		c07Bytes(r)
 		c07MapOrder(r)
